@@ -53,8 +53,8 @@ func (f *IntegerLength) Call(s *slip.Scope, args slip.List, depth int) (result s
 	case *slip.Bignum:
 		bi := (*big.Int)(ta)
 		if bi.Sign() < 0 {
-			bi = bi.Add(bi, big.NewInt(1))
-			bi = bi.Neg(bi)
+			// -(bi + 1) in a new big.Int so the argument is left unchanged.
+			bi = new(big.Int).Not(bi)
 		}
 		result = slip.Fixnum(bi.BitLen())
 	default:
